@@ -11,4 +11,20 @@ if bad:
     print("forbidden constructs:", bad); sys.exit(1)
 ok, out = C.coq_static_build()
 print(out[-2000:])
-sys.exit(0 if ok else 1)
+if not ok:
+    sys.exit(1)
+# warm the content-addressed caches (every check re-validates them against /repo's current tree):
+# the C++ shim build and the translated space-group tables with their reflection instances
+try:
+    from lib import extshim
+    print("shim:", extshim.build())
+except Exception as e:  # the checks report this themselves
+    print("shim build failed:", e)
+try:
+    from lib import symtables as S
+    C.STATIC_TARGETS = None
+    r = S.build()
+    print("tables: ok=%s cached=%s wall=%.0fs" % (r["ok"], r["cached"], r.get("wall_s", 0)))
+except Exception as e:
+    print("table warm-up failed:", e)
+sys.exit(0)
